@@ -86,6 +86,8 @@ def main(job_path):
             from . import faults
 
             faults.install(mon, job["fault"])
+        if job.get("kill_event"):
+            M.install_kill_event(mon, job["kill_event"])
         if job.get("kill_after"):
             model.kill_after = int(job["kill_after"])
             model.kill_hook = mon.flush
